@@ -32,7 +32,8 @@ ERRORS = [(b'bogus = 1', 0), (b'i = x', 0), (b'i = = 2', 0), (b'i 5', 0), (b'i =
           (b's = "x\ny\\8"', 1), (b'i = 99999999999999999999', 0), (b'kv { k = = }', 0), (b'b = maybe', 0), (b'f = 1.5x', 0),
           (b'i += 1', 0), (b'sec = 1', 0), (b'fn 1', 0), (b'sec {\n in {\n z = q\n}\n}', 2), (b't "x" {\n a = \n= }', 2),
           (b'il = {1 2}', 0), (b', ', 0), (b'i = {', 0), (b'"" = 1', 0), (b'"|foo" = 1', 0), (b'"sec|" = 1', 0), (b'"|" = 1', 0),
-          (b'"sec=|a" = 1', 0), (b'"kv|x" = 1', 0), (b'kv|x = 1', 0), (b'np = x', 0), (b'npl = {x}', 0), (b'npl += y', 0), (b'"t=\'x\'y|a" = 1', 0), (b'"sec|in" = 1', 0)]
+          (b'"sec=|a" = 1', 0), (b'"kv|x" = 1', 0), (b'kv|x = 1', 0), (b'np = x', 0), (b'npl = {x}', 0), (b'npl += y', 0), (b'"t=\'x\'y|a" = 1', 0), (b'"sec|in" = 1', 0),
+          (b'include()', 0), (b'include( )', 0), (b'include(\n)', 1), (b'include("a", "b")', 0), (b'include("nope.conf")', 0), (b'include("nope.conf",)', 0)]
 # errors that are only detected at the end of the input: the line is that of the last byte
 EOF_ERRORS = [b'sec { a = 1', b'i =', b"s = 'unterminated\n\n", b's = "unterminated\n', b'/* unterminated\n\n', b'il = {1,', b'fn(a',
               b't "x"', b'i']
@@ -99,7 +100,7 @@ def generate(rng, tier):
                 pl = 'file'     # an included file that ends inside an item continues in the includer: not an end-of-input error
             if pl == 'section' and (e.startswith(b'}') or e.startswith(b'sec') or e.startswith(b't ') or e.startswith(b'kv') or e.startswith(b'fn')
                                     or e.startswith(b'il') or e.startswith(b's =') or e.startswith(b'b ') or e.startswith(b'f ')
-                                    or e.startswith(b'/*') or e.startswith(b'"" ')):
+                                    or e.startswith(b'/*') or e.startswith(b'"" ') or e.startswith(b'include')):
                 pl = 'top'
             if pl == 'section':
                 # inside `sec` only a and in are declared; make the item use `a`
@@ -133,6 +134,19 @@ def generate(rng, tier):
             n += 1
             lines = gen.prelude(SCHEMA, 0) + ['parse_buf 0 ' + hx(first), 'errfunc 0 1', 'parse_buf 0 ' + hx(bad + b'\n')]
             yield Scn('ef%d' % n, lines, {'class': 'errfunc-replaced', 'expect': 'alt', 'noise': 1, 'err': bad, 'impl_only': True})
+    # a callback inside an included file parses a text into ANOTHER context; afterwards the outer parse still knows
+    # where it is: in the included file, and back in the including one
+    NS = SCHEMA + [Opt('func', b'nest', func='nest:1')]
+    for inner in (b'i = 5\n', b'i = = 5\n', b'', b's = "open\n'):
+        q = b"'" + inner + b"'"
+        for inc, main, exp in ((b'i = 1\nnest(' + q + b')\ni = 2\n', b'# main\ninclude("inc.conf")\ni = 3\nbogus = 1\n', (b'[buf]', 4)),
+                               (b'nest(' + q + b')\n\nbogus = 1\n', b'include("inc.conf")\n', (b'inc.conf', 3 + inner.count(b'\n'))),
+                               (b'sec {\nnest(' + q + b')\n}\n', b'\n\ninclude("inc.conf")\n\ni = = 1\n', (b'[buf]', 5))):
+            n += 1
+            # a nest() function needs to be declared in the section too for the third form
+            sch = [o if o.name != b'sec' else Opt('sec', b'sec', 0, None, SUB + [Opt('func', b'nest', func='nest:1')]) for o in NS]
+            lines = gen.prelude(sch, 0) + ['init 1 0 0', 'file %s file %s' % (hx(b'inc.conf'), hx(inc)), 'parse_buf 0 ' + hx(main)]
+            yield Scn('ni%d' % n, lines, {'class': 'nested-in-include', 'expect': exp, 'noise': 1, 'err': main, 'impl_only': True})
     # a callback that refuses reports through cfg_error(cfg, ...) with the context it was handed (the documented idiom):
     # the diagnostic names the line on which the token that triggered the call ends.  (library only: `cberror`)
     CBS = [Opt('int', b'pi', 0, 1, cbs=('parse:0',)), Opt('int', b'vi', 0, 1, cbs=('valid:0',)), Opt('intl', b'vl', 0, b'{1}', cbs=('valid:0',)),
@@ -202,7 +216,8 @@ def oracle(scn, il):
         return out
     if not diags:
         return [('silent-error:' + key_of(scn), '%s: parse failed without any diagnostic (%r)' % (scn.id, scn.meta['err']))]
-    f, line, fmt = diags[0].split(',', 2)
+    # (the diagnostics of a parse started from a callback arrive in the same log, before the one that ends the outer parse)
+    f, line, fmt = diags[-1 if scn.meta['class'] == 'nested-in-include' else 0].split(',', 2)
     want = '%s,%d' % (hx(exp[0]), exp[1])
     if '%s,%s' % (f, line) != want:
         out.append(('position:%s:%s' % (scn.meta['class'], 'file' if f != hx(exp[0]) else 'line%+d' % (int(line) - exp[1])),
